@@ -10,6 +10,11 @@ RULE = ("Standalone CoroutinePool (min 0, max in {1,2,4,8,16}, keep-alive 0/5 ms
 
 def run(tier, seed, t0):
     cases = cl.run_cases(PID, "c11", seed, tier, 1200 if tier == "thorough" else 120, case_timeout=60, jobs=16, binname="pool")
+    if tier == "thorough":
+        try:
+            cases += cl.asan_cases(PID, "c11", seed, 120, binname="pool")
+        except vlib.BuildError as e:
+            c = vlib.Case(3_000_000); c.engine = "asan"; c.verdict = "inconclusive"; c.sig = "harness/asan-build-failed"; c.detail = str(e)[:300]; cases.append(c)
     return vlib.finish(PID, tier, seed, "exploration", cases, rule=RULE, t0=t0, replay_builder=cl.rb_factory("c11", seed, binname="pool"),
                        assumptions=["cancels are requested between passes from the scheduling thread (signal-driven cancels of running tasks belong to C13)"])
 
